@@ -199,6 +199,7 @@ func oracle(c *hx.NegCase, o *hx.Observed) [][2]string {
 	negd := map[string]bool{}   // name spaces negotiated on the current stream
 	adv := map[[2]string]bool{} // names advertised by the last list of the current stream
 	cache := map[string]centry{}
+	var advReq []hx.FeatSpec // configured features the last list read marked required, eligible then or not
 	nlists := 0
 	needHeader := false
 	selfReady := false         // some feature's own mask contained Ready
@@ -229,6 +230,7 @@ func oracle(c *hx.NegCase, o *hx.Observed) [][2]string {
 			negd = map[string]bool{}
 			adv = map[[2]string]bool{}
 			cache = map[string]centry{}
+			advReq = nil
 		case "in":
 			if needHeader && initiator {
 				fail("restart-header", "after a restart input was consumed before a stream header was sent")
@@ -237,6 +239,7 @@ func oracle(c *hx.NegCase, o *hx.Observed) [][2]string {
 				nlists++
 				adv = map[[2]string]bool{}
 				cache = map[string]centry{}
+				advReq = nil
 				for _, ch := range e.Item.Children {
 					if ch.Text {
 						break
@@ -245,6 +248,9 @@ func oracle(c *hx.NegCase, o *hx.Observed) [][2]string {
 					if g := getFeature(c.Feats, ch.Space, ch.Local); g != nil {
 						if ch.PErr {
 							break
+						}
+						if ch.Req {
+							advReq = append(advReq, *g)
 						}
 						if eligible(*g, cur) {
 							cache[g.Space] = centry{ch.Req, *g}
@@ -306,10 +312,14 @@ func oracle(c *hx.NegCase, o *hx.Observed) [][2]string {
 				}
 				expectNeg = nil
 			}
-			_, cached := cache[f.Space]
-			advertised := adv[[2]string{f.Space, f.Local}] && cached
+			// advertised, literally: an element child with this name in the last list of the
+			// current stream (initiator) / listed by us in the last list (receiver)
+			advertised := adv[[2]string{f.Space, f.Local}]
 			// the one exception: the unconditional STARTTLS attempt on the first list
 			forced := initiator && f.Space == hx.NSStartTLS && nlists == 1 && st&hx.NegSecure == 0 && !advertised
+			if st&^cur != 0 {
+				fail("bits-accounted", fmt.Sprintf("Negotiate saw state %d: bits beyond the initial state and the masks of the successful negotiations (%d)", st, cur))
+			}
 			if st&cur != cur {
 				fail("monotone", fmt.Sprintf("state bits %d seen by Negotiate lost bits of the earlier state %d", st, cur))
 			}
@@ -319,7 +329,7 @@ func oracle(c *hx.NegCase, o *hx.Observed) [][2]string {
 			if !advertised && !forced {
 				fail("advertised", "negotiated a feature the peer did not advertise on this stream: "+f.Space)
 			}
-			if !eligible(*f, st) && !forced {
+			if !eligible(*f, st) { // the forced STARTTLS attempt is an exception to `advertised` only
 				fail("prerequisites", fmt.Sprintf("feature %s (necessary %d, prohibited %d) negotiated in state %d", f.Space, f.Nec, f.Proh, st))
 			}
 			if ce, ok := cache[f.Space]; ok && ce.req && initiator && !forced {
@@ -356,11 +366,25 @@ func oracle(c *hx.NegCase, o *hx.Observed) [][2]string {
 		} else if needHeader {
 			fail("restart-header", "session established although the last negotiated feature asked for a stream restart")
 		}
+		// the literal reading: a feature the last list marked required that was not eligible
+		// then (so it is not in the cache) but is eligible now
+		for _, g := range advReq {
+			ce, cached := cache[g.Space]
+			if cached && ce.req && ce.f.Local == g.Local {
+				continue // covered by pendingRequired below
+			}
+			if g.Neg && !negd[g.Space] && eligible(g, cur) {
+				fail("established/required-became-eligible", "session established while a feature the last advertisement marked required, whose prerequisites did not hold when it was advertised but hold now, was not negotiated: "+g.Space)
+			}
+		}
 		if pendingRequired() && !selfReady {
 			fail("established/required-pending-no-self-ready", "session established while an eligible required feature of the last advertisement was not negotiated, and no feature reported Ready itself")
 		} else if pendingRequired() {
 			fail("established/required-pending", "session established while an eligible required feature of the last advertisement was not negotiated")
 		}
+	}
+	if o.Class != "panic" && o.Class != "timeout" && o.Bits != 0 && o.Bits&^(cur|hx.NegReady) != 0 {
+		fail("bits-accounted", fmt.Sprintf("final state %d has bits beyond the initial state, the masks of the successful negotiations (%d) and Ready", o.Bits, cur))
 	}
 	if o.Class == "ok" && negFailed {
 		fail("feature-error", "a feature's Negotiate returned an error and the session was reported established all the same")
@@ -825,6 +849,23 @@ func corpus() []recCase {
 		Bits: hx.NegReceived, Feats: []hx.FeatSpec{al, b},
 		In:   []hx.Item{hdr, {Kind: "elem", Space: a.Space, Local: a.Local}, hdr, {Kind: "elem", Space: b.Space, Local: b.Local}},
 		Outs: []hx.Outcome{{Mask: S, Restart: true}, {Mask: R}}}})
+	// a STARTTLS-namespace feature whose own prerequisites do not hold must not be forced
+	tlsNec := tls
+	tlsNec.Nec, tlsNec.Proh = S, 0
+	out = append(out, recCase{Note: "forced STARTTLS although the feature's prerequisites do not hold (advertised, not eligible)", NegCase: hx.NegCase{
+		Feats: []hx.FeatSpec{tlsNec, a}, In: []hx.Item{hdr, fl(ch(tlsNec, false), ch(a, true)), fl()},
+		Outs: []hx.Outcome{{Mask: 0}}}})
+	tlsProh := tls
+	tlsProh.Proh = A
+	out = append(out, recCase{Note: "forced STARTTLS although the feature's prerequisites do not hold (not advertised, prohibited bit set)", NegCase: hx.NegCase{
+		Bits: A, Feats: []hx.FeatSpec{tlsProh, a}, In: []hx.Item{hdr, fl(ch(a, true)), fl()},
+		Outs: []hx.Outcome{{Mask: 0}}}})
+	// a required feature that becomes eligible through a voluntary one of the same list (known finding)
+	bn := b
+	bn.Nec = A
+	out = append(out, recCase{Note: "advertised as required while not eligible, eligible after a voluntary feature", NegCase: hx.NegCase{
+		Feats: []hx.FeatSpec{a, bn}, In: []hx.Item{hdr, fl(ch(a, false), ch(bn, true))},
+		Outs: []hx.Outcome{{Mask: A}}}})
 	// Ready together with a restart (known finding)
 	out = append(out, recCase{Note: "Ready in the mask of a restarting feature", NegCase: hx.NegCase{
 		Feats: []hx.FeatSpec{a}, In: []hx.Item{hdr, fl(ch(a, false))},
